@@ -2,6 +2,8 @@ package task_test
 
 import (
 	"os"
+	"os/signal"
+	"syscall"
 	"testing"
 
 	vs "github.com/go-task/task/v3/internal/verifsim"
@@ -9,6 +11,11 @@ import (
 
 // TestVerifSim is the single entry point of the exec-sim engine binary (see /verif/bin/verif).
 func TestVerifSim(t *testing.T) {
+	// os/signal's runtime machinery must not be created inside a bubble (a changed tree may reach code that
+	// registers a signal handler, e.g. watch mode)
+	sigc := make(chan os.Signal, 1)
+	signal.Notify(sigc, syscall.SIGUSR1)
+	signal.Stop(sigc)
 	switch os.Getenv("VERIF_FAMILY") {
 	case "":
 		t.Skip("VERIF_FAMILY not set")
